@@ -12,7 +12,8 @@ import eqlgen as G
 from core import Case
 
 PID = "C10"
-LEAN_MODULES = ["KrroodVerif.Props.C10", "KrroodVerif.Props.C10Q", "KrroodVerif.Props.C10N", "KrroodVerif.Props.C09Lazy"]
+LEAN_MODULES = ["KrroodVerif.Props.C10", "KrroodVerif.Props.C10Q", "KrroodVerif.Props.C10N", "KrroodVerif.Props.C10Sub",
+                "KrroodVerif.Props.C09Lazy"]
 THEOREMS = [
     "KrroodVerif.Eql.C10_trace_vis",
     "KrroodVerif.Eql.C10_trace_rows",
@@ -80,22 +81,43 @@ THEOREMS = [
     "KrroodVerif.Eql.C10N_forall_early_exit_pulled",
     "KrroodVerif.Eql.C10N_pull_in_range",
     "KrroodVerif.Eql.C10N_pulled_le_domain",
+    "KrroodVerif.Eql.C10S_operand_vis",
+    "KrroodVerif.Eql.C10S_vis",
+    "KrroodVerif.Eql.C10S_query_vis",
+    "KrroodVerif.Eql.C10S_rows",
+    "KrroodVerif.Eql.C10S_prefix",
+    "KrroodVerif.Eql.C10S_pulled_mono",
+    "KrroodVerif.Eql.C10S_never_pulls_bound",
+    "KrroodVerif.Eql.C10S_bound_inner_pulled_zero",
+    "KrroodVerif.Eql.C10S_streaming",
+    "KrroodVerif.Eql.C10S_inner_first",
+    "KrroodVerif.Eql.C10S_inner_pulls",
 ]
 MODEL_FUNCTION = ("Eql.traceQuery / Eql.traceE / Eql.uptoRow / Eql.pulled (Model/EqlTrace.lean); Eql.traceExistsRoot / "
                   "Eql.traceForAllRoot (Model/EqlTraceQ.lean); Eql.traceN / Eql.traceQueryN / Eql.existsWalkN / "
-                  "Eql.traceForAllN (Model/EqlTraceN.lean: quantifiers in any position)")
+                  "Eql.traceForAllN (Model/EqlTraceN.lean: quantifiers in any position); Eql.traceOperand / Eql.traceCmpX / "
+                  "Eql.traceX / Eql.traceQueryX / Eql.subStream / Eql.theWalk (Model/EqlTraceSub.lean: an(...)/the(...) "
+                  "sub-queries as operands)")
 TRUSTED = [
     "Lean 4.33 kernel; axioms of each theorem listed under coverage.theorems",
     "hand-written trace model Model/EqlTrace.lean (continuation-passing transcription of symbolic.py evaluation)",
     "hand-written Model/EqlTraceN.lean (Exists / ForAll in any position as walks over the child's event stream; "
     "validated per run: pull counts per domain and per k equal to the real engine's on every sampled query)",
+    "hand-written Model/EqlTraceSub.lean (nested an(...)/the(...) operands: restarted per outer binding, streamed, an "
+    "unbound selected variable materialised by itertools.product; `the` = walk over the inner stream; validated per run: "
+    "pull counts per domain and per k equal to the real engine's on every sampled query; the theorems of Props/C10Sub "
+    "cover an(...) — `thes = []` —, the(...) is tied by the correspondence and concrete `decide` tests only)",
+    "the two-query history observation (Drive/C10 runTwo: max of the two partial evaluations' needs) is a driver-level "
+    "formula over traceQueryN, not a theorem",
     "this correspondence harness (logging generators / attribute access), the S-expression driver",
 ]
 ASSUMPTIONS = [
     "CPython generator protocol: a suspended generator performs no work until next() is called",
     "queries are tree-shaped; quantifiers may occur anywhere below and_/or_/not_ and below each other (Model/EqlTraceN.lean)",
 ]
-RULE = ("corpus, then quantifiers below and_/or_/not_ and inside other quantifiers (hand-shaped positions + the shared "
+RULE = ("corpus, then nested an(...)/the(...) sub-queries as comparison operands (correlated / uncorrelated, inner variable "
+        "over an int or object generator domain; every k; the same history re-evaluation), then two DIFFERENT queries over one "
+        "variable set (A abandoned after k results, then B: one result, then B exhausted), then quantifiers below and_/or_/not_ and inside other quantifiers (hand-shaped positions + the shared "
         "generator's quantified trees), random root-level exists/for_all over quantifier-free bodies and random quantifier-free condition trees (depth<=3, 1-3 variables, int/object domains as one-shot "
         "logging generators); each query is rebuilt and consumed for every k in 0..n+1, each time followed by a second evaluation of the same object of which one result is taken; non-trivial = the query has "
         ">=2 results and some domain is not fully pulled at k=1; distinct by case text")
